@@ -116,6 +116,35 @@ def pseudo_elig_job():
             res.nontrivial_count += 1
         off += ln if ln else 4
     res.sample({'eligible_pseudo': lines[5]})
+    # multi-instruction expansions: li with a literal beyond 12 bits is lui + addi; whichever of the two equals the expansion
+    # of a legal RVC instruction (c.lui for an upper part in [-32, 31] \ {0} and rd not x0/x2; c.addi for a lower part in
+    # [-32, 31] \ {0}) must be 16 bits.  Decoded sequentially: a 32-bit instruction in the eligible set is a miss.
+    E = eligible_set()
+    lines2 = []
+    for rd in (1, 2, 5, 8, 10, 15, 16, 31):
+        for hi in (1, 5, 31, 32, 0x12345, 0x7ffff, 0xfffe0, 0xfffff, 0x80000):
+            for lo in (-2048, -33, -32, -1, 1, 5, 31, 32, 2047):
+                lines2.append('li x%d, %d' % (rd, ((hi << 12) + lo) & 0xffffffff))
+    res.evaluations += len(lines2)
+    for k in range(0, len(lines2), 72):
+        chunk = lines2[k:k + 72]
+        try:
+            out = bytes(a.assemble('\n'.join(chunk) + '\n', compress=True))
+        except Exception as e:
+            res.fail('elig:pseudo:refused', 'batch of li lines refused with -c: %s' % str(e)[-200:], {'kind': 'elig', 'source': chunk[0] + '\n'})
+            continue
+        off = 0
+        while off < len(out):
+            ln, cls, mn, f, base = rvref.decode_at(out, off)
+            if not ln:
+                break
+            if ln == 4 and base is not None and (base[0], tuple(sorted(base[1].items()))) in E:
+                res.fail('elig:pseudo:li:%s' % base[0], 'a li of the batch starting with %r leaves %s %r in 32 bits with -c although it equals the expansion of a legal '
+                         'RVC instruction' % (chunk[0], base[0], base[1]), {'kind': 'elig', 'source': '\n'.join(chunk) + '\n'})
+                break
+            if ln == 2:
+                res.nontrivial_count += 1
+            off += ln
     return res
 
 
@@ -155,6 +184,19 @@ def judge(prog, res):
     if not w.discs:
         E = eligible_set()
         for i, it in enumerate(prog.items):
+            if it.kind == 'pseudo':
+                # expansions of pseudo-instructions are instructions too ("two rounds so that expansions ... are also
+                # considered"): with literal, position-independent operands every 32-bit instruction of the expansion
+                # that equals the expansion of a legal RVC instruction is a missed compression
+                if it.name in ('call', 'tail') or any(isinstance(o, str) or getattr(o, 'label_dep', False) for o in it.ops):
+                    continue
+                for (o_, ln_, cls_, mn_, f_, base_) in w.seg[i][2]:
+                    if ln_ == 4 and base_ is not None and (base_[0], tuple(sorted(base_[1].items()))) in E:
+                        one = it.render(ir.Style(0))
+                        raise env.CaseFailure('elig:context:pseudo:%s' % it.name, 'the expansion of %r contains %s %r in 32 bits although it has literal operands and equals '
+                                              'the expansion of a legal RVC instruction\n%s' % (one, base_[0], base_[1], src[:700]), progcheck.case_of(prog, True))
+                    res.count('pseudo_expansion_insns_in_context')
+                continue
             if it.kind != 'insn' or it.mn.startswith('c.'):
                 continue
             if any(getattr(o, 'label_dep', False) for o in it.ops.values()):
@@ -201,7 +243,7 @@ def run(tier):
                 'within one instruction), assembled with -c, must be '
                 '16 bits and effect-equal - every element is non-trivial, distinct by construction; (b) Hypothesis IR programs: '
                 'len and every label with -c <= without, and every literal-operand instruction of the program whose meaning is in that set is 16 bits '
-                '(eligibility in context); non-trivial = -c moves some label down; distinct by source')
+                '(eligibility in context; the same for each instruction of the expansion of a pseudo-instruction with literal operands, and for a grid of li values whose upper / lower part sits on both sides of the c.lui / c.addi ranges); non-trivial = -c moves some label down; distinct by source')
     return chk.finish()
 
 
@@ -212,7 +254,12 @@ def replay(path):
         a = env.load_asm()
         try:
             out = bytes(a.assemble(body['case']['source'], compress=True))
-            bad = len(out) != 2
+            E = eligible_set()
+            bad, off = False, 0
+            while off < len(out) and not bad:
+                ln, cls, mn, f, base = rvref.decode_at(out, off)
+                bad = not ln or (ln == 4 and base is not None and (base[0], tuple(sorted(base[1].items()))) in E)
+                off += ln
         except Exception:
             bad = True
         if bad:
